@@ -41,7 +41,8 @@ Inductive sch_op :=
 | ODropJoins (if_exists : bool)                                (* dropJoinTables *)
 | OExists                                                      (* tableExists: answers, changes nothing *)
 | OClear (clear_joins : bool)                                  (* clearTable *)
-| OFill (k : Z).                                               (* out of band: a row in every table *)
+| OFill (k : Z)                                                (* out of band: a row in every table *)
+| ORawDropLink (i : nat).                                      (* out of band: DROP TABLE <i-th link table the class owns> *)
 
 (* state left behind, "a statement failed", the answer of tableExists *)
 Definition sch_step (dc : decl) (op : sch_op) (db : dbstate) : eres * option bool :=
@@ -55,6 +56,10 @@ Definition sch_step (dc : decl) (op : sch_op) (db : dbstate) : eres * option boo
   | OExists => ((db, false), Some (table_exists db (table_of dc)))
   | OClear cj => (clear_table_full dc cj db, None)
   | OFill k => ((fill_all k db, false), None)
+  | ORawDropLink i => (match nth_error (joins_to_create dc) i with
+                       | Some j => eng_drop db (inter_table dc j)
+                       | None => (db, true)
+                       end, None)
   end.
 
 (* ---------- several databases *)
@@ -101,6 +106,20 @@ Fixpoint db_run (a b : decl) (cls : list call) (db : dbstate) : dbstate :=
 (* the calls of a history that address database c *)
 Definition routed_to (cc c : connid) (cls : list call) : list call :=
   filter (fun cl => connid_eqb (route cc (c_arg cl)) c) cls.
+
+(* ---------- schema evolution through the argument: sqlmeta.addColumn / delColumn(changeSchema, connection=...).
+   ONE class (its column list changes with every accepted step), several databases; the ALTER TABLE / table
+   rebuild goes to `route cc arg` *)
+Record evo_world := { ew_decl : decl; ew_dbs : world }.
+Definition evo_world_step (cc : connid) (arg : option connid) (op : evo_op) (w : evo_world) : evo_world * bool :=
+  let c := route cc arg in
+  let r := evo_step {| e_decl := ew_decl w; e_db := get c (ew_dbs w) |} op in
+  ({| ew_decl := e_decl (fst r); ew_dbs := put c (e_db (fst r)) (ew_dbs w) |}, snd r).
+Fixpoint evo_world_run (cc : connid) (ops : list (option connid * evo_op)) (w : evo_world) : evo_world :=
+  match ops with
+  | [] => w
+  | (arg, op) :: r => evo_world_run cc r (fst (evo_world_step cc arg op w))
+  end.
 
 (* ---------- SQL text rendered for a given connection's dialect:
    0 createTableSQL(createJoinTables=f1, createIndexes=f2) / 1 createJoinTablesSQL / 2 createIndexesSQL;
